@@ -87,6 +87,37 @@ def first_true_index(decisions, variant, other, by_const=False):
     return None
 
 
+def _position_form(ctx, b, g, variant, n):
+    """get_index written as `[k1, .., kn].iter().position(|k| search == k)`: the slot of k_j is its place in the array"""
+    F = ctx.F
+    rows = [r for (v, dec), rs in g.items() if v == variant for r in rs]
+    if len(rows) != 1 or any(dec for (v, dec), rs in g.items() if v == variant):
+        return False
+    t = rows[0].ret
+    if not (t[0] == "call" and itm(t[1], "position") and len(t[2]) == 2 and t[2][1][0] == "closure"):
+        return False
+    src = t[2][0]
+    arrs = [x for x in subterms(src) if x[0] == "array"]
+    if len(arrs) != 1 or [c for c in calls_in(src) if re.search(r"Iterator>?::(rev|skip|take|step_by|filter|chain)$", c[1])]:
+        return False
+    want = tuple(fld(variant, "k%d" % j) for j in range(1, n + 1))
+    cl = t[2][1]
+    crt = nosite(deep_strip(Terms(F.need(cl[1])).return_term()))
+    c = as_cmp(crt)
+    caps = cl[2]
+    eq_ok = False
+    if c and c[0] == "Eq":
+        ops = [rewrite(x, lambda y: caps[int(y[2])] if y[0] == "field" and y[1] == ("arg", 1) and str(y[2]).isdigit() and int(y[2]) < len(caps) else None) for x in (c[1], c[2])]
+        eq_ok = {unmut(ops[0]), unmut(ops[1])} == {("arg", 2)} | {("arg", 2)} or (("arg", 2) in [unmut(o) for o in ops] and any(unmut(o) == ("arg", 2) and True for o in ops) and len([o for o in ops if unmut(o) == ("arg", 2)]) == 2)
+        # one operand is the search key (captured arg2 of get_index), the other the element (closure arg2)
+        eq_ok = sorted(repr(unmut(o)) for o in ops) == sorted([repr(("arg", 2)), repr(("arg", 2))]) or (len(caps) >= 1 and unmut(caps[0]) == ("arg", 2) and {repr(unmut(c[1])), repr(unmut(c[2]))} == {repr(("field", ("arg", 1), "0")), repr(("arg", 2))})
+    ok = arrs[0][1] == want and eq_ok
+    for j in range(1, n + 1):
+        ctx.check(ok, "get_index:%s:slot%d" % (variant, j - 1), "get_index of %s is not the position of the search key in [k1..k%d]: %s" % (variant, n, short(t)[:160]), b.where(), detail="position in [k1..k%d]" % n)
+    ctx.check(ok, "get_index:%s:miss" % variant, "a key that equals none of k1..k%d does not give None" % n, b.where(), detail="position() == None")
+    return True
+
+
 def R1_slot_table(ctx):
     """C11.R1 slot tables agree across all accessors"""
     F = ctx.F
@@ -103,6 +134,8 @@ def R1_slot_table(ctx):
         g = grouped(b)
         for variant, n in SIZES.items():
             seen = set()
+            if fn == "get_index" and _position_form(ctx, b, g, variant, n):
+                continue
             for (v, dec), rows in g.items():
                 if v != variant:
                     continue
@@ -345,16 +378,14 @@ def R4_state_model(ctx):
     F = ctx.F
     ctx.rule("C11.R4", "StateModel: initial_state maps over self.0.iter() one value per feature (get_initial); indexed_iter = iter().enumerate(); extend re-inserts existing entries first, then the new ones, Err on a conflicting overwrite; new = CompactOrderedHashMap::new; custom formats decode only their own variant", floor=9)
     b = F.need(SM + "::initial_state")
-    rt = nosite(deep_strip(Terms(b).return_term()))
-    maps = [x for x in calls_in(rt) if itm(x[1], "map")]
-    ok = len(maps) == 1 and maps[0][2][0] == ("call", MAP + "iter", (("field", SELF, "0"),)) and any("Iterator::collect" in x[1] for x in calls_in(rt))
-    trunc = [x[1] for x in calls_in(rt) if re.search(r"Iterator>?::(take|skip|filter|filter_map|step_by|rev)$", x[1])]
-    ctx.check(ok and not trunc, "initial_state:all-features-in-index-order", "initial_state is not a map over self.0.iter() (index order) collected: %s" % short(rt)[:160], b.where(), detail="self.0.iter().map(get_initial).collect()")
+    TRUNC = r"Iterator>?::(take|skip|filter|filter_map|step_by|rev|chain|zip)$"
+    builds = [x for x in elementwise_builds(b) if contains(x["src"], lambda q: q == ("call", MAP + "iter", (("field", SELF, "0"),)))]
+    ok = len(builds) == 1 and not [y for y in calls_in(builds[0]["chain"]) if re.search(TRUNC, y[1])]
+    ctx.check(ok, "initial_state:all-features-in-index-order", "initial_state is not built element by element from self.0.iter() (index order, nothing skipped)", b.where(), detail="one value per feature of self.0.iter()")
     if ok:
-        cb = F.need(maps[0][2][1][1])
-        oks = [r for r in table(cb) if r.end == "return" and result_variant(r.ret) == "Ok"]
-        okc = len(oks) == 1 and agg_payload(oks[0].ret) == ("call", "routee_compass_core::model::state::state_feature::StateFeature::get_initial", (("field", ("arg", 2), "1"),))
-        ctx.check(okc, "initial_state:declared-initial", "each slot is not the feature's declared initial value", cb.where(), detail="feature.get_initial()")
+        gi = ("call", "routee_compass_core::model::state::state_feature::StateFeature::get_initial", (("field", ("elem",), "1"),))
+        okc = builds[0]["values"] == (gi,)
+        ctx.check(okc, "initial_state:declared-initial", "each slot is not the feature's declared initial value: %s" % [short(v)[:80] for v in builds[0]["values"]], b.where(), detail="feature.get_initial()")
     ib = F.need(MAP + "indexed_iter")
     irt = nosite(deep_strip(Terms(ib).return_term()))
     ctx.check(irt == ("call", "std::iter::Iterator::enumerate", (("call", MAP + "iter", (SELF,)),)), "indexed_iter", "indexed_iter is not iter().enumerate(): %s" % short(irt), ib.where(), detail="iter().enumerate()")
@@ -371,15 +402,25 @@ def R4_state_model(ctx):
     # extend: existing entries first (iter over self.0 -> collect), then insert each new entry; Err iff overwrites non-empty
     eb = F.need(SM + "::extend")
     etm = Terms(eb)
-    colls = [c for c in eb.calls() if c.callee and "Iterator::collect" in c.callee and ADT in " ".join(c.func.get("targs", []))]
-    okx = len(colls) == 1
+    eb_builds = [x for x in elementwise_builds(eb) if contains(x["src"], lambda q: q == ("call", MAP + "iter", (("field", SELF, "0"),)))]
+    okx = len(eb_builds) == 1 and not [y for y in calls_in(eb_builds[0]["chain"]) if re.search(r"Iterator>?::(take|skip|filter|rev|step_by|chain|zip)$", y[1])]
     if okx:
-        src = nosite(deep_strip(etm.operand(colls[0].args[0], colls[0].bb)))
-        okx = bool([x for x in calls_in(src) if x[1] == MAP + "iter" and x[2] == (("field", SELF, "0"),)]) and not [x for x in calls_in(src) if re.search(r"Iterator>?::(take|skip|filter|rev|step_by)$", x[1])]
-    ctx.check(okx, "extend:existing-first", "extend does not start from all existing entries in index order", eb.where(), detail="self.0.iter().collect::<CompactOrderedHashMap>()")
-    ecl = [F.bodies[p] for p in F.bodies if p.startswith(eb.path + "::{closure")]
-    ins = [(cb, c) for cb in ecl for c in cb.calls() if c.callee == MAP + "insert"]
-    ctx.check(len(ins) == 1, "extend:insert-each-new", "each new entry is not inserted into the copied map exactly once", eb.where())
+        x = eb_builds[0]
+        # (name.clone(), feature.clone()) of every existing entry goes into a CompactOrderedHashMap
+        vals = x["values"][0][1] if x["form"] == "map" and x["values"][0][0] == "tuple" else x["values"]
+        okx = tuple(vals) == (("field", ("elem",), "0"), ("field", ("elem",), "1")) and ((x["form"] == "map" and ADT in x["targs"]) or (x["form"] == "loop" and x["sink"] == MAP + "insert"))
+    ctx.check(okx, "extend:existing-first", "extend does not start from all existing entries in index order", eb.where(), detail="every (name, feature) of self.0.iter() copied into the new map")
+    # every new entry inserted exactly once, after the copy
+    ins_sites = []
+    for tb in [eb] + [F.bodies[p] for p in F.bodies if p.startswith(eb.path + "::{closure")]:
+        ttm = Terms(tb)
+        for c in tb.calls():
+            if c.callee == MAP + "insert":
+                key = unmut(nosite(deep_strip(ttm.operand(c.args[1], c.bb))))
+                from_new = contains(key, lambda q: q == ("arg", 2)) or ("{closure" in tb.path and contains(key, lambda q: q[0] == "arg" and q[1] == 2))
+                if "{closure" in tb.path or contains(ttm.operand(c.args[1], c.bb), lambda q: q == ("arg", 2)):
+                    ins_sites.append((tb, c))
+    ctx.check(len(ins_sites) == 1, "extend:insert-each-new", "each new entry is not inserted into the copied map exactly once (found %d insert sites fed from `entries`)" % len(ins_sites), eb.where())
     rows = [r for r in table(eb, max_paths=100000) if r.end == "return"]
     okr = any(result_variant(r.ret) == "Ok" for r in rows) and any(result_variant(r.ret) == "Err" for r in rows)
     emp = [r for r in rows if any(t[0] == "call" and t[1].endswith("is_empty") for t, _ in r.bools)]
